@@ -476,6 +476,14 @@ Definition fs_open (s : fstate) (p : str) (fl perm : N) : res handle * fstate :=
   let wr := o_wronly fl || o_rdwr fl in
   let rd := negb (o_wronly fl) in
   let excl := o_creat fl && o_excl fl in
+  let p' := strip_trailing_seps p in
+  (* O_CREAT with a trailing separator: EISDIR once the parents resolve *)
+  if o_creat fl && negb (str_eqb p' p) && negb (str_eqb p' []) then
+    match resolve (st_fs s) p' true with
+    | WErr e => (Err e, s)
+    | _ => (Err EISDIR, s)
+    end
+  else
   match resolve (st_fs s) p (negb excl) with
   | WErr e => (Err e, s)
   | WFound k n =>
